@@ -5,6 +5,8 @@
   `Sequence._prepareForOutputting`); `padArr` the raw-array part; `Sequence.delaysFor` looks the
   delay of every channel of an element up by the channel's own id.
 -/
+import BB.Proofs.Paths
+import BB.Proofs.Consistent
 import BB.Proofs.Delay
 import BB.Proofs.Basic
 import BB.Model.Sequence
@@ -245,5 +247,38 @@ theorem zero_delay_counts (sr : ℚ) (ns : List ℕ) : delayedCounts sr 0 0 ns =
 
 theorem zero_delay_segs (segs : List Seg) : delayedSegs segs 0 0 = segs.map (shiftWait 0) := by
   simp [delayedSegs]
+
+/-! ### forge() and both AWG output methods apply the delays identically -/
+
+/-- for one element: `Element._applyDelays` with the delays of the element's own channels (forge)
+    and the delay loop of `_prepareForOutputting` with the delays of element 1's channels (AWG /
+    SEQX output) leave elements that deliver the same arrays -/
+theorem element_delay_paths_agree (s : Sequence) (e e' e'' : Element) (chans : List Chan) (delays : List ℚ)
+    (srv : Val) (t : Bool) (hwf : Dict.WF e.chans) (hperm : chans.Perm e.channels)
+    (h1 : s.delayElement e = .ok e') (hd : chans.mapM s.delayOf = .ok delays)
+    (hsr : e.getSR = .ok srv) (h2 : Sequence.prepDelayElement srv e chans delays = .ok e'') :
+    e'.getArrays t = e''.getArrays t :=
+  (Paths.element_paths_agree s e e' e'' chans delays srv t hwf hperm h1 hd hsr h2).1
+
+/-- **the output path equals forge**: whenever both succeed on a sequence of elements,
+    `_prepareForOutputting` — the common front end of `outputForAWGFile` and
+    `outputForSEQXFile` — delivers at every position exactly the per-channel arrays (delayed
+    waveform with its filter annotation, both markers, flags) of
+    `forge(apply_delays=True, apply_filters=True)`.  The only hypothesis beyond success is that
+    no element lists a channel twice (true of everything `addBluePrint`/`addArray` build). -/
+theorem output_path_equals_forge (s : Sequence) (F : List (ℕ × ForgedPos)) (P : List (Dict Chan ChOutF))
+    (hF : s.forge true true false = .ok F) (hP : s.prepareForOutputting = .ok P)
+    (hwf : ∀ p e, Dict.get? s.data p = some (.el e) → Dict.WF e.chans) :
+    P.length = F.length ∧
+    ∀ i (h1 : i < F.length) (h2 : i < P.length), ∃ sq, Dict.get? s.sequencing ((i + 1 : ℕ) : ℤ) = some sq ∧
+      F[i] = (i + 1, { sequencing := sq, isSub := false, content := [(1, P[i], none)] }) := by
+  have hc : s.checkConsistency = .ok true := by
+    unfold Sequence.prepareForOutputting at hP
+    split at hP
+    · cases hP
+    · cases hP
+    · assumption
+  exact Paths.paths_agree s F P hF hP hwf
+    (fun e1 p e h1 h2 => consistent_channels_perm s hc 1 p e1 e h1 h2)
 
 end BB.C10
